@@ -373,6 +373,13 @@ class CFG:
                 return fouts
             return outs
 
+        if isinstance(st, ast.Return) and self._inlines and self._inlines[-1][0].tail == "raise" and st.value is not None:
+            # helper inlined at `raise helper(...)`: its result is raised
+            synth = ast.Raise(exc=st.value, cause=None)
+            ast.copy_location(synth, st)
+            ast.fix_missing_locations(synth)
+            return self._stmt(synth, preds)
+
         if isinstance(st, ast.Return) and any(not blk.tail for blk, _e in self._inlines):
             blk, ends = [x for x in self._inlines if not x[0].tail][-1]
             if isinstance(blk.result, tuple):
